@@ -95,14 +95,21 @@ def nginxAddrOk (s : Str) : Bool :=
     | [] => false
     | c :: rest => if c == '[' then ngxInet6Url rest else ngxInetUrl s
 
-/-- why an accepted value is not an NGINX address (classes of the known findings) -/
-def addrDefectClass (s : Str) : String :=
-  if s.contains ':' && parseIP s then "bare-ipv6"
-  else if s.getLast? == some ':' then "empty-port"
-  else if (match splitLast ':' s with | some (_, p) => p.head? == some '+' | none => false) then "signed-port"
-  else if s.head? == some '[' then "bracketed-non-ipv6"
-  else if hasUnixPrefix s then "unix-prefix"
-  else "other"
+/-- the candidate repair of the generator: a bare IPv6 address is rendered between brackets -/
+def bracketV6 (v : Str) : Str := if v.contains ':' && parseIP v then '[' :: (v ++ [']']) else v
+
+/-- the classes of accepted optional-port values that are not NGINX addresses (the known findings);
+`none` = the value is in none of them -/
+def addrDefect (s : Str) : Option String :=
+  if s.contains ':' && parseIP s then some "bare-ipv6"
+  else match splitHostPort s with
+    | .ok (h, p) =>
+      if p.isEmpty then some "empty-port"
+      else if p.head? == some '+' then some "signed-port"
+      else if s.head? == some '[' && !isV6 h then some "bracketed-non-ipv6"
+      else if hasUnixPrefix s then some "unix-prefix"
+      else none
+    | .error _ => none
 
 /-- the repo's documented port range of an endpoint: the text after the last ':' outside brackets -/
 def endpointWellFormed (s : Str) : Bool :=
